@@ -38,6 +38,9 @@ def ops : List (String × (List String → String)) := [
        else Gen.LockFacts.nested.map fun n => "lock-order-cycle:" ++ n.1 ++ ":" ++ n.2.1 ++ ">" ++ n.2.2.1) ++
       ((Gen.LockFacts.goSites.filter (fun g => !goOk g)).map fun g => "go:" ++ g.fn ++ "@" ++ g.file ++ ":" ++ toString g.line) ++
       ((Gen.LockFacts.looseSync.filter (fun l => l.2.2.1 == "leak")).map fun l => "lock-leak:" ++ l.1 ++ ":" ++ l.2.1 ++ "@" ++ l.2.2.2.2) ++
+      ((Gen.LockFacts.splitRMW.filter (fun x => !startupFns.contains x.1)).map fun x => "split-rmw:" ++ x.1 ++ ":" ++ x.2.1 ++ "@" ++ x.2.2.1) ++
+      ((Gen.LockFacts.renames.filter (fun x => x.2.2.2 == "")).map fun x => "rename-target-not-reserved:" ++ x.1 ++ "@" ++ x.2.1) ++
+      ((Gen.LockFacts.globalWrites.filter (fun x => x.2.2.2 == .none && !startupFns.contains x.2.1)).map fun x => "global-written-without-barrier:" ++ x.1 ++ ":" ++ x.2.1 ++ "@" ++ x.2.2.1) ++
       (if tempExcl Gen.LockFacts.tempFile then [] else ["tempfile:flags=" ++ toString Gen.LockFacts.tempFile.flags])
     toString bad.length ++ (if bad.isEmpty then "" else " " ++ " ".intercalate (bad.map fun s => s.replace " " "_"))),
   ("facts.summary", fun _ =>
